@@ -320,7 +320,7 @@ func TypesWith(c explore.Chooser, opt TypesOpt) *prog.Program {
 	reexport := s.Pick("root-const-of-sub-enum", "no", "yes")
 	style := s.Pick("decl.style", "separate", "grouped", "same-line")
 	dartRoot := s.Pick("dart.root", "under-go-src", "outside-go-src")
-	secondFile := s.Pick("second-file", "no", "yes")
+	secondFile := s.Pick("second-file", "no", "yes", "union-over-first-file")
 
 	var a, b, cfile, sub strings.Builder
 
@@ -614,6 +614,10 @@ func TypesWith(c explore.Chooser, opt TypesOpt) *prog.Program {
 	a.WriteString(strings.Join(methods, "\n"))
 	a.WriteString("\n")
 
+	if secondFile == "union-over-first-file" {
+		// the second analysed file declares a union, one member of which is declared in the first file
+		cfile.WriteString("type Outline interface {\n\tisOutline()\n}\n\ntype Blot struct {\n\tB int\n}\n\nfunc (Blot) isOutline()   {}\nfunc (Circle) isOutline() {}\n\ntype Plan struct {\n\tMain Outline\n}\n")
+	}
 	if secondFile == "yes" {
 		cfile.WriteString("type Extra struct {\n\tIt   Item\n\tK    subpkg.Kind\n\tMore []Square\n\tID   subpkg.Ident\n}\n\ntype ExtraList []Extra\n")
 	}
@@ -677,7 +681,7 @@ func TypesWith(c explore.Chooser, opt TypesOpt) *prog.Program {
 		// several declarations starting on one line, not in alphabetical order (legal, not gofmt'ed)
 		root.Files[0].RawTail = "type Zeta struct{ Z int }; type Alpha string\n\ntype ( Second int; First []Second )\n"
 	}
-	if secondFile == "yes" {
+	if secondFile != "no" {
 		root.Files = append(root.Files, prog.File{Name: "c.go", Src: finish(rootName, cfile.String(), false)})
 		p.Analysed = append(p.Analysed, "c.go")
 	}
